@@ -32,6 +32,7 @@ they are read from; C11.4 force_set_identity takes the recorded identity
 unconditionally. Fourth round: C11.5 the stored listing is not modified while
 restore_placement walks it.
 Sweep: C11.4 every way an iteration of the restore walk can end is: restore result true, record deleted, or the not-found handler of the record read; C11.5 the walk is never cut short.
+Fifth round: C11.1 a bucket whose record names a parent is attached to it on every path, and a server carries the partition its record names (another value only when the record names none).
 Does NOT decide fidelity for all reachable stored states.
 """
 
